@@ -8,7 +8,11 @@ is LINKED against each configuration's library (oracle): an undefined reference 
 known_findings.d/C20.txt is a VIOLATION whose replay is the symbol and the failing link command.
 Part 2: the accessor bodies are regenerated (group AccessC20), the round-trip theorems re-checked, and every
 setter/getter pair is called on the real library (serial sanitizer build, OpenMPI build) and compared with
-the extracted model and with a Python oracle that remembers the last stored value."""
+the extracted model and with a Python oracle that remembers the last stored value - also after the objects
+were USED in between (notification rounds on 3 OpenMPI ranks and on the serial build, shared-array traffic,
+option parsing/printing): a use stores nothing (theorems C20_last_stored*, C20_use_identity).  Group UseC20
+regenerates slices of the writers outside the setters (sc_notify_new / set_type / nary_init / ranges_init) and
+a census of every store into a configuration field; C20_gen_* tie them to the model."""
 import os, sys, json, re, subprocess
 from concurrent.futures import ThreadPoolExecutor
 import vlib
@@ -574,21 +578,40 @@ def run(ctx):
                        "referencing all of them per configuration and one failing link per recorded name); part 2: one evaluation per scenario and "
                        "build: systematic scenarios (all 8 NULL masks of the width getter with pairwise different widths, all types incl. DEFAULT, "
                        "boundaries 0/1/2^32/2^63/2^64-1 of the eager threshold, INT_MAX, every callback/context pair, spacing around the column "
-                       "boundaries 13/14/20/32) plus seeded histories over 4 controllers; distinct = distinct (build, scenario)")
+                       "boundaries 13/14/20/32); set-USE-get scenarios: per communicator the first / later rounds (sc_notify_payload with no receivers, "
+                       "itself, the next rank, every rank; with / without payload, in place, senders NULL; sc_notify_payloadv) between setter and getter for the "
+                       "n-ary widths (every NULL mask after the first round, public defaults changed between selection and round, controller born n-ary), "
+                       "number of ranges / package id, superset callback / context, eager threshold (boundaries) / statistics object (attached, real) / type / "
+                       "communicator for every type except RSX, two controllers interleaved; sc_shmem_malloc/write/allgather/prefix/memcpy/free between "
+                       "sc_shmem_set_type and get; sc_options_parse / print_usage / print_summary / more options between set_spacing and the observed usage "
+                       "message; plus seeded histories over 4 controllers with rounds wherever the stored settings make one legal.  The OpenMPI build runs "
+                       "on 3 ranks (every rank executes every operation, each rank's output is compared); the serial build runs the same scenarios without "
+                       "the rounds its MPI stubs cannot run; distinct = distinct (build+rank, scenario)")
     ctx.notes["part1"] = summary
     ctx.notes["part2"] = stats
     ctx.notes["input_distribution"] = ("histories: 8-60 operations; per step: creation if the handle is free (15% a change of the public defaults instead), "
-                                       "else destroy 4%, set_type 16%, get_type 6%, eager set/get 14%, stats set/get 10%, comm 3%, then type specific "
+                                       "else destroy 3%, set_type 13%, get_type 4%, eager set/get 10%, stats set/get 8%, comm 2%, a round 18% (if legal), then type specific "
                                        "setter/getter (widths >= 2 incl. INT_MAX, num_ranges >= 1, package id >= -1, callbacks 0..3 x contexts 0..7) or "
-                                       "shmem/spacing operations; 30% of the scenarios run after sc_init (sc_package_id = 0)")
-    for s in (scen[0], scen[5], scen[-1]):
+                                       "shmem/spacing operations (incl. shuse, spacingu); when the stored settings allow a round (widths in [2,64], 1..64 ranges, callback set, "
+                                       "type not RSX) a round has receiver pattern uniform in none/self/next/all; payload none x2, separate x2, in place, "
+                                       "senders NULL, payloadv; 60% of the width setters use small widths so that rounds become legal; 30% of the scenarios run "
+                                       "after sc_init (sc_package_id = 0)")
+    ctx.notes["mpi_ranks"] = NP
+    for s in (scen[0], scen[5], scen[32], scen[-1]):
         ctx.sample({"scenario": s[:240]})
     ctx.cov["trusted_base"] = ["clang-14's JSON AST for the declarations, binutils nm and ld for the symbols, this check's reading of the CMake install rule "
                                "(validated once against a real `cmake --install`)",
                                "tools/c2g with the accessor extension of tools/c2g/groups_C20.py (mitigated by the differential run)",
                                "hand-written model of sc_notify_new / set_type / the union, of the shmem attribute and of the usage columns (C20/AccessModel.v)",
-                               "configurations are emulated with tools/build/sc_config.h.in instead of running CMake (sources and install rule are read from the CMake files)"]
+                               "configurations are emulated with tools/build/sc_config.h.in instead of running CMake (sources and install rule are read from the CMake files)",
+                               "tools/c2g/slicelib.py (calls as ghost outputs) for the slices of sc_notify_new / set_type / nary_init / ranges_init and the AST census of "
+                               "stores into configuration fields (tools/c2g/groups_C20.py, group UseC20; completeness of the function list checked against nm of the object file)",
+                               "the model's `a round is the identity on the configuration` (C20/AccessModel.v OUse/OUseV/OShUse/OSpacingU) - tied by the census theorem "
+                               "C20_gen_writers and by the differential run on 1 (serial) and 3 (OpenMPI) processes"]
     ctx.assumptions += ["accessors are called on a controller of the documented type; superset callbacks are read only after they were set (the union is not initialised for that type)",
                         "n-ary widths >= 2, number of ranges >= 1, package id >= -1, spacing below the line buffer size",
-                        "declarations produced by macro expansions (sc_extern_c_hack_3/4 of SC_EXTERN_C_BEGIN/END) are not API and are ignored"]
+                        "declarations produced by macro expansions (sc_extern_c_hack_3/4 of SC_EXTERN_C_BEGIN/END) are not API and are ignored",
+                        "a notification round is run only on a controller whose settings describe a runnable algorithm (n-ary widths in [2,64], 1..64 ranges, "
+                        "package id >= -1, superset callback not NULL, statistics NULL or a real object) and is followed by a barrier (back-to-back findings of C01/C02); "
+                        "SC_NOTIFY_RSX rounds are not run (MPI_Win_create fails in this Open MPI installation)"]
     return "proof"
